@@ -127,7 +127,7 @@ class Run(object):
             self.tc[ev["id"]] = None if a == "CircGone" else ev
         else:
             ev = e["ev"]
-            if a == "StreamGone":
+            if a in ("StreamGone", "LateClosed"):
                 self.ts[ev["id"]] = None
             else:
                 old = self.ts[ev["id"]] or {}
@@ -159,7 +159,7 @@ class Run(object):
         a = e["a"]
         try:
             if a in ("Launch", "Extend", "Built", "CircGone", "StreamNew", "SentConnect", "Remap", "Succeeded",
-                     "Detached", "StreamGone"):
+                     "Detached", "StreamGone", "LateClosed"):
                 self.truth(e)
                 if self.state is not None:
                     ev = e["ev"]
